@@ -19,3 +19,11 @@ chk("C13", "exploration", "property-based testing (Hypothesis): operation histor
     "Lateness <= 4 ms per wake-up; coincidences within 1 us are left open; timer notifications other than tick/complete "
     "are not asserted.",
     "DESIGN.md §4 C13")
+chk("C03", "exploration", "property-based testing (Hypothesis): generated switch timelines vs. a sequential reference model of state, deadlines and registry",
+    "Generated timelines of raw/logical reports on NO and NC switches (duplicates included), handler registrations with "
+    "hold times, duplicate registrations, removals (also from callbacks), queries and integer-ms advances are run on the "
+    "real SwitchController; a reference model decides for every callback and switch event whether it was due (exactly "
+    "once per real change, at change+hold iff the state was held, mid-interval registrations at the original deadline, "
+    "never after removal) and checks states and is_active/is_inactive answers. Search, not proof.",
+    "ignore_window_ms = 0, no muting; an operation exactly at a deadline may land on either side.",
+    "DESIGN.md §4 C03")
